@@ -229,8 +229,12 @@ class Out:
         g = enc(goal_t)
         ps = [enc(p) for p in prem_ts]
         self.tid += 1
-        key = "%s: %s" % (solver, " ; ".join([show(p) for p in ps] + ["|- " + show(g)]))
-        ev = {"tid": self.tid, "key": key[:400], "solver": solver, "goal": g, "prems": ps, "acc": acc, "exc": exc[:200],
+        fv = {}
+        for j in ps + [g]:
+            all_vars(j, fv)
+        key = "%s: %s [%s]" % (solver, " ; ".join([show(p) for p in ps] + ["|- " + show(g)]),
+                               ", ".join("%s::%s" % kv for kv in sorted(fv.items())))
+        ev = {"tid": self.tid, "key": key[:500], "solver": solver, "goal": g, "prems": ps, "acc": acc, "exc": exc[:200],
               "flag": bool(self.z3w.check_z3), "src": src}
         self.f.write(json.dumps(ev, separators=(",", ":")) + "\n")
 
@@ -394,6 +398,17 @@ def abstract(j, name, d=0):
     return [j[0], j[1], j[2], j[3], [abstract(c, name, d) for c in j[4]]]
 
 
+def all_vars(j, acc):
+    """names and types of the free variables and applied function variables (for the event key)"""
+    if j[0] == "var":
+        acc[j[1]] = j[2]
+    elif j[0] == "app":
+        acc[j[1]] = "(%s)=>%s" % (",".join(ntype(c) for c in j[4]), j[2])
+    for c in j[4]:
+        all_vars(c, acc)
+    return acc
+
+
 def free_vars(j, acc=None):
     acc = {} if acc is None else acc
     if j[0] == "var":
@@ -489,6 +504,18 @@ def z3_family():
                         gs.append(b)
                         gs.append(Not(b))
                         gs.append(Q(q, v, T, abstract(Not(a), v)))
+    # every order relation against x, x + 1 and y: fixes the direction and the strictness of each translation
+    for T in ("nat", "int", "real"):
+        x, y = V("x", T), V("y", T)
+        x1 = Op("plus", T, x, N(T, 1))
+        for rel in ("less", "less_eq", "greater", "greater_eq", "equals"):
+            for a, b in ((x, x), (x, x1), (x1, x)):
+                gs.append(Rel(rel, a, b))
+            gs.append(Op("implies", "bool", Rel(rel, x, y), Rel("less_eq", x, y)))
+            gs.append(Op("implies", "bool", Rel(rel, x, y), Rel("greater_eq", x, y)))
+            gs.append(Op("implies", "bool", Rel("less", x, y), Rel(rel, x, y)))
+            gs.append(Op("implies", "bool", Rel("greater", x, y), Rel(rel, x, y)))
+            gs.append(Op("implies", "bool", Rel("equals", x, y), Rel(rel, x, y)))
     # of_nat at real / int, division at real
     x, y, r, s = V("x", "nat"), V("y", "nat"), V("r", "real"), V("s", "real")
     rx, ry = Op("of_nat", "real", x), Op("of_nat", "real", y)
